@@ -130,8 +130,12 @@ func (c *Compactor) Compact() (*CompactionResult, error) {
 	}
 	reader.Close()
 
-	// Create temp file for new data (always V3 format with name in header area)
+	// Create temp file for new data (always V3 format with name in header area).
+	// A temp file left behind by an earlier interrupted compaction must go
+	// first: the writer would open it for appending and its stale entries
+	// would end up in the compacted file.
 	tempPath := c.filePath + ".compact"
+	_ = os.Remove(tempPath)
 	writer, err := NewFileWriterWithName(tempPath, c.maxBlockSize, swampName)
 	if err != nil {
 		result.Error = err
